@@ -254,11 +254,12 @@ class Ctx:
         return True
 
     def violation(self, signature, what, replay, found_input=True):
-        os.makedirs(os.path.join(VERIF, "replays"), exist_ok=True)
+        rpdir = os.environ.get("VERIF_REPLAY_DIR") or os.path.join(VERIF, "replays")
+        os.makedirs(rpdir, exist_ok=True)
         body = {"property": self.prop, "signature": signature, "what": what, "seed": self.seed,
                 "tier": self.tier, "failing_input_found": found_input, "replay": replay}
         h = hashlib.sha256(json.dumps([self.prop, signature], sort_keys=True).encode()).hexdigest()[:12]
-        path = os.path.join(VERIF, "replays", "%s-%s.json" % (self.prop, h))
+        path = os.path.join(rpdir, "%s-%s.json" % (self.prop, h))
         if signature in [v[0] for v in self.violations]:
             return
         with open(path, "w") as f:
@@ -329,8 +330,9 @@ class Ctx:
         ev = {"property_id": self.prop, "tier": self.tier, "seed": self.seed, "level": level,
               "coverage": cov, "assumptions": self.assumptions,
               "wall_s": round(time.time() - self.t0, 2), "violations": len(self.violations)}
-        os.makedirs(os.path.join(VERIF, "evidence"), exist_ok=True)
-        with open(os.path.join(VERIF, "evidence", self.prop + ".json"), "w") as f:
+        evdir = os.environ.get("VERIF_EVIDENCE_DIR") or os.path.join(VERIF, "evidence")
+        os.makedirs(evdir, exist_ok=True)
+        with open(os.path.join(evdir, self.prop + ".json"), "w") as f:
             json.dump(ev, f, indent=1, default=str)
         return ev
 
